@@ -7,6 +7,7 @@ from jax import lax
 from jax import numpy as jnp
 from jaxtyping import Array, Bool, Float, Key, PyTree
 from mujoco import mjx
+from mujoco.mjx._src.smooth import rne_postconstraint
 
 from lerax.render import AbstractRenderer
 from lerax.render.mujoco_renderer import AbstractMujocoRenderer, MujocoRenderer
@@ -65,6 +66,9 @@ class AbstractMujocoEnv[
 
         data = state.sim_state.replace(ctrl=action)
         data, _ = lax.scan(step_once, data, None, length=self.frame_skip)
+        # Like Gymnasium's MujocoEnv: force-related quantities (cfrc_ext, cacc, ...) are
+        # only computed by the post-constraint RNE pass, which `step` does not run.
+        data = rne_postconstraint(self.model, data)
 
         return eqx.tree_at(
             lambda s: (s.sim_state, s.t), state, (data, state.t + self.dt)
